@@ -29,6 +29,20 @@ NEG = [
     ("rcomb_base_a_ptr_p-1", "begin push.1.2.3.4 mem_storew.50 dropw push.5.6.0.0 mem_storew.60 dropw push.9 push.18446744069414584320 push.50 push.40 push.7.8.9.10 push.11.12.13.14.15.16.17.18 rcomb_base end", []),
     ("call_in_loop_depth", "proc.f push.3 end begin push.1 while.true call.f push.0 end end", []),
 ]
+# every instruction that takes a memory address from the stack x addresses of 2^32 or more (incl. the largest field elements,
+# where adding 1 wraps around the modulus)
+BAD_ADDRS = [2**32, 2**32 + 1, 2**40, 2**63, P_ - 2, P_ - 1]
+for _a in BAD_ADDRS:
+    NEG += [
+        ("mem_load_%d" % _a, "begin push.%d mem_load end" % _a, []),
+        ("mem_loadw_%d" % _a, "begin padw push.%d mem_loadw end" % _a, []),
+        ("mem_store_%d" % _a, "begin push.5 push.%d mem_store end" % _a, []),
+        ("mem_storew_%d" % _a, "begin push.1.2.3.4 push.%d mem_storew end" % _a, []),
+        ("mem_stream_%d" % _a, "begin push.%d padw padw padw mem_stream end" % _a, []),
+        ("adv_pipe_%d" % _a, "begin push.%d padw padw padw adv_pipe end" % _a, [1, 2, 3, 4, 5, 6, 7, 8]),
+        ("rcomb_base_z_%d" % _a, "begin push.1.2.3.4 mem_storew.50 dropw push.5.6.0.0 mem_storew.60 dropw push.9 push.60 push.%d push.40 push.7.8.9.10 push.11.12.13.14.15.16.17.18 rcomb_base end" % _a, []),
+        ("rcomb_base_a_%d" % _a, "begin push.1.2.3.4 mem_storew.50 dropw push.5.6.0.0 mem_storew.60 dropw push.9 push.%d push.50 push.40 push.7.8.9.10 push.11.12.13.14.15.16.17.18 rcomb_base end" % _a, []),
+    ]
 POS = [
     # same address in caller, callee (call), kernel (syscall): reads see the context's own last write
     ("isolation", "proc.f push.7 mem_store.5 mem_load.5 push.9 mem_store.6 drop end begin push.3 mem_store.5 call.f mem_load.5 mem_load.6 end", None),
